@@ -38,6 +38,8 @@ CLAIMS = {
     "C03": mixed("PROVED: modify_according_to_levelvec (all integers): selected level stays in [lmin, l], is monotone in the component level and depends only on the own level entry "
                  "(relational product proofs); get_point_coord_for_each_dim (1-2 dimensions, any container sizes, children bookkeeping sliced away mechanically, subtraction value abstract): every "
                  "returned 1-D list is strictly ascending, contains both domain end points and consists exactly of the interval ends that pass the level test of that dimension; "
+                 "get_subtraction_value for the level-independent coarsening versions 2 and 3 (relational product proofs, get_max_level abstract): the subtraction value depends only on the own level "
+                 "entry and the level down to which points are kept grows with the component level; "
                  "Lean lemmas as C02. BOUNDED: the real dimension-wise strategy under an adversarial benefit oracle (d<=3, versions 2,3,6,7,8, "
                  "rebalancing, boundary on/off): sorted nested 1-D sets, coefficient sum 1, reproduction at grid points after every refinement step."),
     "C04": bounded("No contract within reach decides 'every function of the initial space stays exact' (needs approximation theory through numpy quadrature/interpn). "
